@@ -142,6 +142,7 @@ func scenarios(tier string) []engine.Scenario {
 	scs = append(scs, sequenceScenarios(tier)...)
 	scs = append(scs, dftScenarios(tier)...)
 	scs = append(scs, mod1Scenarios(tier)...)
+	scs = append(scs, thresholdScenarios(tier)...) // a few seconds each: last, outside the re-run window of the determinism gate
 	return scs
 }
 
@@ -172,7 +173,7 @@ func main() {
 		Expect: func(tier string) []string {
 			e := []string{"axis=default", "axis=copy", "seq=first=full", "seq=second=batch3-sparser-small", "seq=first=evalmod-scaled-0.5", "seq=second=evalmod-scaled-2i", "seq=res0", "seq=res1", "seq=res2", "calibration=hit", "dft=sparse=true", "dft=sparse=false",
 				"mod1type=0", "mod1type=1", "mod1type=2", "mod1da=0", "mod1da=1", "mod1da=2", "mod1da=3", "mod1inv=0", "mod1inv=5", "mod1inv=7",
-				"default=DefaultParametersSparse[0]", "default=DefaultParametersDense[0]", "defaultLogN=8", "defaultLogN=9", "defaultLogN=10",
+				"default=DefaultParametersSparse[0]", "default=DefaultParametersDense[0]", "defaultLogN=8", "defaultLogN=9", "defaultLogN=10", "defaultLogN=11",
 				"keys=all-generated-keys-requested", "rejected=constructor-error", "encaps=on", "encaps=off", "ringkeys=none", "ringkeys=degree-switch", "ringkeys=conjugate-invariant",
 				"api=Bootstrap", "api=BootstrapMany", "logN=8", "logN=9", "ctLogSlots=0", "ctLogSlots=1", "ctLogSlots=2", "ctLogSlots=full", "ctLogSlots=half"}
 			for _, ax := range axes {
